@@ -677,23 +677,29 @@ pub const SLACK: usize = 64;
 
 /// size of all values as computed by pilota's own TLengthProtocol for `prot`
 pub fn pilota_size(prot: Prot, vals: &[&Val], api: BinApi) -> usize {
+    pilota_size_zc(prot, vals, api, false)
+}
+
+/// `zc`: the zero-copy flag the length protocol is constructed with (callers size and write with
+/// the same protocol object, so it is the writer's flag)
+pub fn pilota_size_zc(prot: Prot, vals: &[&Val], api: BinApi, zc: bool) -> usize {
     match prot {
         Prot::Binary => {
-            let mut p = binary::TBinaryProtocol::new((), false);
+            let mut p = binary::TBinaryProtocol::new((), zc);
             vals.iter().map(|v| len_val(&mut p, v, api)).sum()
         }
         Prot::BinaryLe => {
-            let mut p = binary_le::TBinaryProtocol::new((), false);
+            let mut p = binary_le::TBinaryProtocol::new((), zc);
             vals.iter().map(|v| len_val(&mut p, v, api)).sum()
         }
         Prot::Compact => {
-            let mut p = compact::TCompactOutputProtocol::new((), false);
+            let mut p = compact::TCompactOutputProtocol::new((), zc);
             vals.iter().map(|v| len_val(&mut p, v, api)).sum()
         }
         Prot::Unsafe => {
             let mut dummy: [u8; 0] = [];
             let s: &'static mut [u8] = unsafe { std::mem::transmute(&mut dummy[..]) };
-            let mut p = unsafe { binary_unsafe::TBinaryUnsafeOutputProtocol::new((), s, false) };
+            let mut p = unsafe { binary_unsafe::TBinaryUnsafeOutputProtocol::new((), s, zc) };
             vals.iter().map(|v| len_val(&mut p, v, api)).sum()
         }
     }
